@@ -125,13 +125,16 @@ func parseAddressList(addresses string) string {
 		email := addr
 
 		// Extract name part if present
-		if strings.Contains(addr, "<") && strings.Contains(addr, ">") {
-			start := strings.Index(addr, "<")
-			end := strings.Index(addr, ">")
-			name = strings.TrimSpace(addr[:start])
-			email = addr[start+1 : end]
-			// Remove quotes from name if present
-			name = strings.Trim(name, "\"")
+		// The closing ">" is looked for after the "<": a stray ">" in the
+		// display name must not produce an inverted slice.
+		if start := strings.Index(addr, "<"); start != -1 {
+			if end := strings.Index(addr[start:], ">"); end != -1 {
+				end += start
+				name = strings.TrimSpace(addr[:start])
+				email = addr[start+1 : end]
+				// Remove quotes from name if present
+				name = strings.Trim(name, "\"")
+			}
 		}
 
 		// Parse email into mailbox@host
